@@ -306,6 +306,11 @@ func (c *Ctx) Step(step string) string {
 		}
 		pos := int(atoiDef(a["pos"], 0))
 		txHex, txid, err := c.chainSim().buildOpening(p, csv, pos, amount, len(c.id))
+		if w.rw != nil && c.chain == "lbtc" {
+			// the real Liquid validator is in place: a real Elements transaction
+			p.BlindingKey = detKey("blinding")
+			txHex, txid, err = buildOpeningLq(p, csv, pos, amount)
+		}
 		if err != nil {
 			return "build-error"
 		}
